@@ -214,8 +214,8 @@ ModInLanguage(md) ==
   /\ (md.rects.form = "flat" => Len(md.rects.rs) = 1)
   /\ \A i \in DOMAIN md.rects.rs :
         LET r == md.rects.rs[i] IN \A c \in 1..4 : r[c] >= 0 /\ r[c] <= CMAX
-  \* terminals carry no rectangles in the modelled language (the statement gives them area zero)
-  /\ (md.flags.terminal = 1 => md.rects.form = "none")
+  \* (a terminal may carry rectangles: the reader accepts them -- without regions, as for every hard module -- and
+  \*  derives the terminal's centre and area from them; only a terminal WITHOUT rectangles has area zero)
 InLanguage(d) ==
   /\ \A i \in DOMAIN d.mods : ModInLanguage(d.mods[i])
   /\ Distinct([i \in DOMAIN d.mods |-> d.mods[i].name])      \* YAML mapping keys are unique
@@ -376,9 +376,8 @@ Write(nl) == [mods |-> [i \in DOMAIN nl.mods |-> WriteModule(nl.mods[i])],
 (***************************************************************************)
 (* Derive: the quantities C05 names, defined on the SOURCE DOCUMENT.       *)
 (***************************************************************************)
-\* module area: sum of region areas; of rectangle areas for hard modules; zero for terminals
-DefArea(md) == IF DTerminal(md) THEN 0
-               ELSE IF DHard(md) THEN RectsArea(md.rects.rs)
+\* module area: sum of region areas; of rectangle areas for hard modules; zero for terminals (that have no rectangles)
+DefArea(md) == IF DHard(md) THEN RectsArea(md.rects.rs)       \* terminals included: zero when they have no rectangles
                ELSE SeqSum([i \in DOMAIN md.area.ent |-> md.area.ent[i][2]])
 \* centre: centroid of the rectangles when there are any, else the stated centre (or none)
 DefCenter(md) == IF md.rects.rs # <<>> THEN Centroid(md.rects.rs) ELSE md.center
@@ -589,7 +588,27 @@ HardDocs == { Hardish(FHard, <<>>, r) : r \in { [form |-> "flat", rs |-> <<R4>>]
 FlipDocs == { Hardish(FFlip, <<>>, r) : r \in { List(<<R1>>), List(<<R3, R1, R2>>) } \cup (IF Thorough THEN { List(<<R2, R1>>) } ELSE {}) }
 FixedDocs == { Hardish(FFixed, <<>>, r) : r \in { List(<<R4>>), List(<<R1, R3>>) } \cup (IF Thorough THEN { List(<<R1, R4>>) } ELSE {}) }
 TermDocs == { Hardish(FTerm, c, NoRects) : c \in {<<>>, C2(7, 1)} } \cup { Hardish(FFixedTerm, C2(2, 9), NoRects) }
-WideDocs == SoftDocs \cup HardDocs \cup FlipDocs \cup FixedDocs \cup TermDocs
+\* SPECIAL variants, combined only with a few partners (and alone) so that the universe does not square with them:
+\*  twin trunks -- two rectangles of exactly equal area, each a valid trunk for the other (two 2x2 squares side by
+\*    side), in both listing orders, soft with / without region tags, hard, flippable: whichever trunk create_stog
+\*    prefers, the choice must be stable from one load to the next;
+\*  terminals with rectangles -- one / two rectangles, fixed or not, with / without a stated centre.
+T1 == <<0, 0, 2, 2, Ground>>
+T2 == <<2, 0, 4, 2, Ground>>
+Body(m) == [area |-> m.area, center |-> m.center, aspect |-> m.aspect, flags |-> m.flags, rects |-> m.rects, extra |-> m.extra]
+TwinDocs == { [Soft(1, 1, 1, 1) EXCEPT !.rects = List(<<T1, T2>>)],
+              [Soft(2, 1, 1, 1) EXCEPT !.rects = List(<<InRegion(T2, "dsp"), InRegion(T1, "bram")>>)],
+              Hardish(FHard, <<>>, List(<<T1, T2>>)), Hardish(FHard, <<>>, List(<<T2, T1>>)),
+              Hardish(FFlip, <<>>, List(<<T2, T1>>)), Hardish(FFixed, <<>>, List(<<T1, T2>>)) }
+TermRectDocs == { Hardish(FTerm, <<>>, [form |-> "flat", rs |-> <<R4>>]),
+                  Hardish(FTerm, C2(7, 1), List(<<R4>>)),                      \* the stated centre gives way to the rectangle's
+                  Hardish(FFixedTerm, C2(2, 9), List(<<R1, R3>>)) }
+SpecialDocs == TwinDocs \cup TermRectDocs
+Partners == { SoftDiag(0), Hardish(FHard, <<>>, [form |-> "flat", rs |-> <<R4>>]), Hardish(FTerm, C2(7, 1), NoRects),
+              Hardish(FFixed, <<>>, List(<<R4>>)), Hardish(FFlip, <<>>, List(<<R1>>)) }
+PairOK(first, md) == \/ (first \notin SpecialDocs /\ md \notin SpecialDocs)
+                     \/ (first \in SpecialDocs /\ md \in Partners) \/ (first \in Partners /\ md \in SpecialDocs)
+WideDocs == SoftDocs \cup HardDocs \cup FlipDocs \cup FixedDocs \cup TermDocs \cup SpecialDocs
 
 \* centre carriers in general position ((0,0)-(3,4) is a 3-4-5 triangle; the others are irrational distances)
 DeepDocs == { [Soft(1, 1, 1, 1) EXCEPT !.center = C2(0, 0)],
@@ -624,7 +643,8 @@ Init == /\ phase = "build" /\ lvl \in {"wide", "deep"} /\ doc = NoDoc
 
 AddModule == /\ phase = "build" /\ doc.nets = <<>> /\ Len(doc.mods) < MaxMods
              /\ \E md \in ModulePool :
-                   doc' = [doc EXCEPT !.mods = Append(doc.mods, [name |-> ModNames[Len(doc.mods) + 1]] @@ md)]
+                   /\ (lvl = "wide" /\ doc.mods # <<>> => PairOK(Body(doc.mods[1]), md))
+                   /\ doc' = [doc EXCEPT !.mods = Append(doc.mods, [name |-> ModNames[Len(doc.mods) + 1]] @@ md)]
              /\ UNCHANGED <<phase, lvl, n, y, n2, y2, inj>>
 AddNet == /\ phase = "build" /\ Len(doc.mods) >= 2 /\ Len(doc.nets) < MaxNets
           /\ (lvl = "deep" => Len(doc.mods) >= 3)
@@ -683,7 +703,7 @@ InvDerived == phase = "loaded" =>
    /\ \A i \in DOMAIN n.mods :
         /\ SeqSum([j \in DOMAIN n.mods[i].areas |-> n.mods[i].areas[j][2]]) = dv.area[i]
         /\ n.mods[i].center = dv.center[i]
-        /\ (KTerminal(n.mods[i].kind) => dv.area[i] = 0)
+        /\ (KTerminal(n.mods[i].kind) /\ n.mods[i].rects = <<>> => dv.area[i] = 0)
    /\ SameBag(Concat([i \in DOMAIN n.mods |-> n.mods[i].rects]), dv.allrects)
    /\ SameBag(Concat([i \in DOMAIN n.mods |-> IF KFixed(n.mods[i].kind) THEN n.mods[i].rects ELSE <<>>]), dv.fixedrects)
 \* the centroid lies in the bounding box of the rectangles; one rectangle: its own centre
